@@ -618,6 +618,19 @@ static void apply_defect(struct sim *s, struct exchange *ex, struct plist *l, co
 			/* an EOD whose length matches the other version's format is the EOD-format defect, still a defect */
 		}
 		w32(l->b[pos] + 4, nv);
+		if (d == D_LEN_TYPE && (pl->param & 1)) {
+			/* aligned variant: the PDU really has the announced number of bytes (padded or cut), so the PDUs
+			 * behind it stay in step; only the length / type consistency is violated */
+			uint8_t *nb = calloc(1, nv);
+
+			memcpy(nb, l->b[pos], nv < l->len[pos] ? nv : l->len[pos]);
+			for (uint32_t i = l->len[pos]; i < nv; i++)
+				nb[i] = (uint8_t)rnd32(&s->rng);
+			free(l->b[pos]);
+			l->b[pos] = nb;
+			l->len[pos] = nv;
+			CNT("sim/defect/len-type-aligned");
+		}
 		break;
 	}
 	case D_UNKNOWN_TYPE: {
